@@ -35,8 +35,7 @@ SIGMA = [
     '&a', '*a', '|', '>', '|-', '<<', '%TAG', '@at', '`bt`', ',', '?', '? x', ': ', '---', '...', 'x' * 200,
     'a\x07b', 'key: |\n  block', 'a b', 'end:',
 ]
-EXCLUDED = ['\x85 (NEL) is covered separately as finding F12']
-SIGMA_F12 = ['a\x85b', '\x85']
+SIGMA_F12 = ['a\x85b', '\x85', 'x\x85']      # NEL: was finding F12, fixed
 
 
 # ------------------------------------------------------------------------------------ (a)
